@@ -1,6 +1,8 @@
 import Femio.Model.FistrCnt
 import Femio.Model.FistrCntCanon
 import Femio.Model.FistrCntHist
+import Femio.Model.FistrCntGroups
+import Femio.Lemmas.FistrMshProps
 import Femio.Lemmas.CntProps
 import Femio.Lemmas.FistrTextProps
 import Femio.Lemmas.CntFile
@@ -622,5 +624,80 @@ theorem C03_history_counterexample_frame_writer :
   have hv : ((ObjSt.fresh exCnt).run exHistOps).view ⟨false⟩ = exCnt := rfl
   rw [writeObj, hv]
   exact C03_file_roundtrip [] exCnt (by decide)
+
+/-! ### node-group definitions in the mesh text: the LAYOUT of an `!NGROUP` block (round 5, seeded change C03-10) -/
+theorem sameLengths_of_forall (k : Nat) (chunks : List (List Nat)) (h : ∀ c ∈ chunks, c.length = k) :
+    sameLengths chunks = true := by
+  cases chunks with
+  | nil => rfl
+  | cons r t =>
+    simp only [sameLengths, List.all_eq_true, beq_iff_eq]
+    intro x hx
+    rw [h x (List.mem_cons_of_mem _ hx), h r (by simp)]
+
+theorem ngBlock_mapM (chunks : List (List Nat)) (hne : ∀ c ∈ chunks, c ≠ []) :
+    (chunks.map renderNatRow).mapM parseRowI = some chunks := by
+  have h := mapM_map_of_forall_mem renderNatRow parseRowI id chunks (fun c hc => parseRowI_natRow c (hne c hc))
+  simpa using h
+
+/-- **C03 (layout of a node-group definition)**: whichever way the members of a node group are distributed over the data
+    lines of an `!NGROUP` block - every chunking `chunks` of the member list into non-empty lines: one id per line, all
+    on one line, `k` per line, `k` per line with a shorter last line, arbitrary - the block denotes exactly the member
+    list `chunks.flatten`: for the reader with the ragged-block repair always, for the upstream reader (`to_values` on the
+    whole block) whenever the lines have the same number of ids. -/
+theorem C03_ngroup_layout (chunks : List (List Nat)) (hne : ∀ c ∈ chunks, c ≠ []) :
+    ngBlockIds NgCfg.repaired (chunks.map renderNatRow) = some chunks.flatten ∧
+    (∀ k, (∀ c ∈ chunks, c.length = k) → ngBlockIds NgCfg.upstream (chunks.map renderNatRow) = some chunks.flatten) := by
+  constructor
+  · simp [ngBlockIds, NgCfg.repaired, ngBlock_mapM chunks hne]
+  · intro k hk
+    simp [ngBlockIds, NgCfg.upstream, ngBlock_mapM chunks hne, sameLengths_of_forall k chunks hk]
+
+/-- two layouts of the same member list are the same definition -/
+theorem C03_ngroup_layout_independent (c₁ c₂ : List (List Nat)) (h₁ : ∀ c ∈ c₁, c ≠ []) (h₂ : ∀ c ∈ c₂, c ≠ [])
+    (hf : c₁.flatten = c₂.flatten) :
+    ngBlockIds NgCfg.repaired (c₁.map renderNatRow) = ngBlockIds NgCfg.repaired (c₂.map renderNatRow) := by
+  rw [(C03_ngroup_layout c₁ h₁).1, (C03_ngroup_layout c₂ h₂).1, hf]
+
+example : ngBlockIds NgCfg.upstream ([[9, 10], [11, 12]].map renderNatRow) = some [9, 10, 11, 12] :=
+  (C03_ngroup_layout [[9, 10], [11, 12]] (by decide)).2 2 (by decide)
+example : ngBlockIds NgCfg.repaired ([[1, 2, 3], [4, 5]].map renderNatRow) =
+    ngBlockIds NgCfg.repaired ([[1], [2], [3], [4], [5]].map renderNatRow) :=
+  C03_ngroup_layout_independent _ _ (by decide) (by decide) rfl
+
+/-- a 4-node mesh text whose group `FIX` = {1, 2, 3, 4} is laid out as the given lines -/
+def exGroupMsh (chunks : List (List Nat)) : List Line :=
+  [c!"!HEADER", c!"Data written by femio", c!"!NODE", c!"1,0.00000000E+00,0.00000000E+00,0.00000000E+00",
+   c!"2,1.00000000E+00,0.00000000E+00,0.00000000E+00", c!"3,0.00000000E+00,1.00000000E+00,0.00000000E+00",
+   c!"4,0.00000000E+00,0.00000000E+00,1.00000000E+00", c!"!ELEMENT, TYPE=341", c!"1,1,2,3,4"]
+  ++ ngBlockText c!"FIX" chunks ++ [c!"!END"]
+def exCntByName : List Line :=
+  [c!"!VERSION", c!"5", c!"!SOLUTION, TYPE=STATIC", c!"!BOUNDARY", c!"FIX,1,2,0.00000E+00", c!"!END"]
+def exCntExplicit : List Line :=
+  [c!"!VERSION", c!"5", c!"!SOLUTION, TYPE=STATIC", c!"!BOUNDARY", c!"1,1,2,0.00000E+00", c!"2,1,2,0.00000E+00",
+   c!"3,1,2,0.00000E+00", c!"4,1,2,0.00000E+00", c!"!END"]
+/-- the node ids of the `!BOUNDARY` table read from a mesh text + control-file text -/
+def boundaryNodes (cfg : NgCfg) (msh cnt : List Line) : Option (Option (List Nat)) :=
+  (readCntFiles cfg msh cnt).map fun r => r.boundary.map fun t => t.map (·.1)
+
+/-- **C03 (counterexample: a reader that takes the first id of every `!NGROUP` line)** - the structure of seeded change
+    C03-10: with two ids per line the group-name row fixes nodes 1 and 3 only, the explicit listing nodes 1-4, without any
+    error; the upstream reader gives 1-4 for both; with one id per line the two readers cannot be told apart. -/
+theorem C03_ngroup_first_id_counterexample :
+    boundaryNodes ⟨true, true⟩ (exGroupMsh [[1, 2], [3, 4]]) exCntByName = some (some [1, 3]) ∧
+    boundaryNodes ⟨true, true⟩ (exGroupMsh [[1, 2], [3, 4]]) exCntExplicit = some (some [1, 2, 3, 4]) ∧
+    boundaryNodes NgCfg.upstream (exGroupMsh [[1, 2], [3, 4]]) exCntByName = some (some [1, 2, 3, 4]) ∧
+    boundaryNodes ⟨true, true⟩ (exGroupMsh [[1], [2], [3], [4]]) exCntByName = some (some [1, 2, 3, 4]) := by
+  refine ⟨by decide, by decide, by decide, by decide⟩
+
+/-- **C03 (counterexample, upstream: a ragged block)**: a block with three ids on the first line and one on the second
+    (`k` per line, shorter last line) cannot be read by the upstream reader at all (`to_values` pads the short line and the
+    integer conversion raises: finding `group-layout:ragged-block`), the repaired reader reads the same group as from any
+    other layout. -/
+theorem C03_ngroup_ragged_counterexample_upstream :
+    boundaryNodes NgCfg.upstream (exGroupMsh [[1, 2, 3], [4]]) exCntByName = none ∧
+    boundaryNodes NgCfg.repaired (exGroupMsh [[1, 2, 3], [4]]) exCntByName = some (some [1, 2, 3, 4]) ∧
+    boundaryNodes NgCfg.repaired (exGroupMsh [[1, 2, 3], [4]]) exCntExplicit = some (some [1, 2, 3, 4]) := by
+  refine ⟨by decide, by decide, by decide⟩
 
 end Femio.C03
